@@ -4,7 +4,7 @@
    constructors) exactly.  Oracle answers (brentq / quadratic root) come with the case and their
    defining equation is re-evaluated here in exact arithmetic. *)
 From Coq Require Import List Arith NArith ZArith QArith Qabs Bool.
-From TLV Require Import Base.Shape Base.Tensor Model.Structure Model.StructureQ Model.StructureHooi Model.StructureWeights Corr.Common.
+From TLV Require Import Base.Shape Base.Tensor Model.Structure Model.StructureQ Model.StructureHooi Model.StructureWeights Model.StructureRanks Corr.Common.
 Import ListNotations.
 Local Open Scope nat_scope.
 
@@ -15,6 +15,7 @@ Inductive op :=
 | VTt (shape : list nat) (spec : rspec) (constant : bool) (rd : rounding) (allow_over : bool) (c : Q)
 | VTr (shape : list nat) (spec : rspec) (rd : rounding)
 | VTtm (tshape : list nat) (spec : rspec) (c : Q)
+| VTuckerFm (shape : list nat) (spec : rspec) (rd : rounding) (fixed_modes : option (list nat)) (c : Q)   (* validate_tucker_rank(fixed_modes=...) *)
 (* decompositions *)
 | DTt (shape : list nat) (spec : rspec) (c : Q)
 | DTtm (tshape : list nat) (spec : rspec) (c : Q)
@@ -52,6 +53,7 @@ Inductive op :=
    last call, 1 = the one before; 99 = none: the initial projections) -- decisions: the implementation's (line-search acceptance, convergence) *)
 | DP2Calls (ik : init_kind) (nn_builtin nf tol_set linesearch : bool) (n_iter : nat) (decisions : list (bool * bool))
 | DWprog (p : list wstmt)     (* the assignments to the CP weights read off a driver's source: the hypothesis of C08_wprog_unit_weights *)
+| DIpaths (ps : list (list istmt))   (* the paths of initialize_cp read off the source: the hypothesis of C08_ipaths_unit_weights *)
 | DHprog (p : hprog)         (* the loop of partial_tucker read off the source: does it satisfy the hypothesis of C08_prog_run_core_projected? *)
 | QCpNorm (R : nat) (w : option (list Q)) (fs scales : list (list Q)) (tol : Q) (wout : list Q) (fout : list (list Q)).
 
@@ -68,6 +70,8 @@ Definition oracle_ok (o : op) : bool :=
       negb (is_frac spec) ||
       small (Qred (tt_residual (if constant then tt_quadratic_const shape (frac_of spec) else tt_quadratic shape (frac_of spec)) c
                    / n2q (prod shape))%Q)
+  | VTuckerFm shape spec _ fm c =>
+      negb (is_frac spec) || small (Qred (validate_tucker_rank_fm_residual shape spec fm c / n2q (prod shape))%Q)
   | DTt shape spec c | DTtCalls shape spec c =>
       negb (is_frac spec) || small (Qred (tt_residual (tt_quadratic shape (frac_of spec)) c / n2q (prod shape))%Q)
   | _ => true
@@ -82,6 +86,7 @@ Definition run (o : op) : res (list (list nat)) :=
   | VTt shape spec constant rd ao c => one (validate_tt_rank shape spec constant rd ao c) (fun r => [r])
   | VTr shape spec rd => one (validate_tr_rank shape spec rd) (fun r => [r])
   | VTtm tshape spec c => one (validate_tt_matrix_rank tshape spec c) (fun r => [r])
+  | VTuckerFm shape spec rd fm c => one (validate_tucker_rank_fm shape spec rd fm c) (fun r => [r])
   | DTt shape spec c => one (tensor_train shape spec c) tt_observe
   | DTtm tshape spec c => tensor_train_matrix tshape spec c
   | DTr shape spec mode => one (tensor_ring shape spec mode) tt_observe
@@ -127,6 +132,7 @@ Definition run (o : op) : res (list (list nat)) :=
       let t := p2o_trace ik nn nf tol_set ls n decisions in
       Ok [[fst t]; [if snd t =? 0 then 99 else fst t - snd t]]
   | DWprog p => Ok [[if wprog_ok p then 1 else 0]]
+  | DIpaths ps => Ok [[if ipaths_ok ps then 1 else 0]]
   | DHprog p => Ok [[if prog_ok p then 1 else 0]]
   | DNorm2 d nf tol_set n decisions =>
       let t := trace_run2 d nf tol_set n decisions in
